@@ -34,26 +34,22 @@ Qed.
 
 Lemma inline_conds_nospread frs k sels :
   forallb (fun s => match s with SSpread _ _ => false | _ => true end) sels = true ->
+  forallb (fun o => match o with Some _ => true | None => false end) (inline_tcs sels) = true ->
   inline_conds (Datatypes.S k) frs sels = Ok (inline_tcs sels).
 Proof.
-  simpl. intro H.
-  assert (G : forall l0, forallb (fun s => match s with SSpread _ _ => false | _ => true end) sels = true ->
-     fold_left (fun acc s => l <- acc ;;
-        match s with
-        | SInline tc _ _ => Ok (l ++ [tc])
-        | SSpread n _ =>
-            match lookup_frag frs n with
-            | Some f => l' <- inline_conds k frs (fr_sel f) ;; Ok (l ++ l')
-            | None => Err "KeyError: fragment"
-            end
-        | SField _ _ _ _ _ => Ok l
-        end) sels (Ok l0) = Ok (l0 ++ inline_tcs sels)).
-  { clear H. induction sels as [|s sels IH]; intros l0 H; simpl.
+  simpl. intros H Hs.
+  match goal with |- fold_left ?F sels (Ok []) = _ =>
+    assert (G : forall l0, forallb (fun s => match s with SSpread _ _ => false | _ => true end) sels = true ->
+                forallb (fun o => match o with Some _ => true | None => false end) (inline_tcs sels) = true ->
+                fold_left F sels (Ok l0) = Ok (l0 ++ inline_tcs sels)) end.
+  { clear H Hs. induction sels as [|s sels IH]; intros l0 H Hs; simpl.
     - rewrite app_nil_r. reflexivity.
-    - simpl in H. apply andb_true_iff in H as [H1 H2]. destruct s; try discriminate H1; simpl.
-      + apply IH, H2.
-      + rewrite IH by exact H2. rewrite <- app_assoc. reflexivity. }
-  apply (G [] H).
+    - simpl in H. apply andb_true_iff in H as [H1 H2]. destruct s as [al n c ms sub | n c | tc c sub];
+        try discriminate H1; simpl.
+      + apply IH; auto.
+      + simpl in Hs. destruct tc as [tc|]; [| discriminate Hs]. simpl in Hs.
+        rewrite IH by auto. rewrite <- app_assoc. reflexivity. }
+  apply (G [] H Hs).
 Qed.
 
 Lemma spreads_nospread S frs sels root :
@@ -80,8 +76,9 @@ Proof.
     - inversion Hr. reflexivity.
     - apply andb_true_iff in Hn as [H1 H2]. destruct s as [al n c ms sub | n c | tc c sub]; try discriminate H1.
       + simpl in Hr. eapply IHs; eauto.
-      + simpl in Hr. destruct tc as [tc|]; [| rewrite resolve_fold_err in Hr; discriminate].
-        destruct (inline_root_type S tc r) as [r'|]; [| eapply IHs; eauto].
+      + simpl in Hr.
+        destruct (inline_root_type S (match tc with Some tc0 => tc0 | None => r end) r) as [r'|];
+          [| eapply IHs; eauto].
         destruct (resolve f S frs sub r') as [q|m] eqn:Eq; simpl in Hr;
           [| rewrite resolve_fold_err in Hr; discriminate].
         rewrite (IH _ _ _ _ H1 Eq) in Hr. simpl in Hr. eapply IHs; eauto. }
@@ -110,7 +107,7 @@ Lemma named_ann_interface C S frs k sub base ifs fs sc x ctx :
     x_related ctx = map (rel_of sc) (abs_names S base sub))).
 Proof.
   intros Hl Hns Hsome H. unfold named_ann in H. rewrite Hl in H. unfold interface_ann in H.
-  rewrite (inline_conds_nospread frs k sub Hns) in H. cbn [bind] in H.
+  rewrite (inline_conds_nospread frs k sub Hns Hsome) in H. cbn [bind] in H.
   rewrite (spreads_nospread S frs sub base Hns) in H. cbn [bind] in H.
   unfold abs_names. rewrite Hl.
   destruct (inline_tcs sub) as [|i ics] eqn:Ei.
@@ -352,8 +349,9 @@ Proof.
               apply in_or_app. left; exact Hx.
             * inversion Es; subst. exact Hx.
           + destruct (type_applies S rt (fr_on f)); [| discriminate]. inversion Es; subst. exact Hx.
-        - destruct tc as [tc|]; [| discriminate]. destruct c'; [discriminate|].
-          destruct (inline_root_type S tc r); destruct (type_applies S rt tc); try discriminate.
+        - destruct c'; [discriminate|].
+          destruct (inline_root_type S (match tc with Some tc0 => tc0 | None => r end) r);
+            destruct (match tc with None => true | Some t => type_applies S rt t end); try discriminate.
           + destruct (flattenM g S frs rt s sub') as [[? ?]|]; [| discriminate]. inversion Es; subst.
             apply in_or_app. left; exact Hx.
           + inversion Es; subst. exact Hx. }
@@ -397,9 +395,10 @@ Lemma variant_class_facts C S frs f2 g pa cn t sub tvs qc qp :
     (forall pf vs, In pf pfl -> p_ann pf = ALit vs -> vs = sort_strings tvs).
 Proof.
   intros H Hns. simpl in H. apply body_inv in H.
-  destruct H as [[_ [_ [_ H]]] | [M [fields0 [mixins [pfl [extra [Hres [Hrun Hout]]]]]]]]; [discriminate|].
+  destruct H as [[_ [_ [_ H]]] | [M [fields0 [mixins [pfl [extra [Hres [Hrun [kept [Hk Hout]]]]]]]]]];
+    [discriminate|].
   pose proof (resolve_no_spread _ _ _ _ _ _ _ Hns Hres) as Hm. simpl in Hm. subst mixins.
-  exists fields0, pfl, extra. repeat split; auto.
+  exists fields0, pfl, extra. split; [exact Hres|]. split; [exact Hrun|]. split; [exact Hout|].
   intros pf vs Hin Ha. pose proof (fields_run_pf _ _ _ _ _ _ _ _ _ _ _ _ _ _ Hrun) as HF.
   destruct (Forall2_In_r _ _ _ _ HF Hin) as [f [_ [ctx Hpf]]].
   destruct (field_pf_alit _ _ _ _ _ _ _ _ _ _ _ Hpf Ha) as [tvs' [E1 [E2 _]]]. inversion E1; subst. reflexivity.
